@@ -171,8 +171,19 @@ func (m *mon) make(id string, d time.Duration, where string) {
 		m.violation("make-request-ignored", fmt.Sprintf("the request to make timer %s (%s, in %v) on a free id was answered, but no such timer is reported as pending", id, uid, d))
 		return
 	}
+	if prev != "" && m.recs[prev].state == "pending" && m.reported[id] == prev {
+		// the id is taken: the request is refused and the pending timer stays
+		m.rec.Bucket("make_on_a_pending_id_refused_and_the_pending_timer_kept")
+		return
+	}
 	if prev != "" && m.recs[prev].state == "pending" && m.reported[id] == "" {
-		// sio's answer to a duplicate id: the pending timer is cancelled, the new one is not created
+		if m.recs[prev].delay >= time.Second {
+			// nowhere near due, never cancelled - and gone: accepted timers are pending until
+			// they fire or are cancelled
+			m.violation("refused-make-removed-a-pending-timer", fmt.Sprintf("the request to make timer %s (%s) while %s is pending under that id (due in %v) was not accepted - and %s is no longer reported as pending although it neither fired nor was cancelled", id, uid, prev, m.recs[prev].delay, prev))
+			return
+		}
+		// a short one may have fired in the meantime
 		m.recs[prev].state = "cancelled"
 		m.recs[prev].cancelRet = time.Now()
 		delete(m.pending, id)
@@ -755,7 +766,7 @@ func Run(cfg fw.Config, rec *fw.Rec) {
 	log.SetOutput(io.Discard)
 	rec.Rule = "sio timers through a real Crew whose input channel the harness owns (the harness plays the crew loop; results are serialised by a consumer goroutine as Stdio does): scenarios of 4-18 steps over ids {x,y}: make (2-16 ms, or 10 s), cancel (also of ids that are free: refused, and later requests must still be honoured), receive for a while, stop receiving so that due timers block inside the emitter and then cancel / re-create the blocked id, quiesce; per timer: fired at most once, not before clock-before-request + delay, not after an acknowledged cancel that preceded its due time; at quiescent points the reported timers state (after a flush message) and the live machine state must equal accepted - fired - cancelled ('accepted' = reported pending right after the request); restart: timers persisted as JSON resume on a new crew (in a third of the scenarios the new crew is restarted again from what it reported), in a quarter the host stays down until the short timers are overdue while a 3 s timer is not yet due; the pending set held and reported right after each restart equals the persisted one, the timers fire exactly once on the last crew and never on an earlier one; under -race; non-trivial = scenario in which a timer fired; distinct by scenario"
 	rec.Required = []string{"fired", "accepted", "cancelled", "quiescent_points_compared", "phases_with_blocked_firing", "make_while_a_firing_is_blocked", "restart_scenarios", "timers_resumed_after_restart", "resumed_timer_cancelled_after_restart", "pending_set_compared_right_after_restart", "second_restart_from_state_reported_after_first", "restart_with_overdue_timers", "cancel_of_free_id", "timers_machine_deleted_with_pending_timers", "timers_machine_reset_while_timers_pending"}
-	rec.Assume = []string{"a cancel acknowledged after the timer's due time overlaps its firing (the goroutine may already be blocked in the emitter): either outcome accepted", "requests the timers machine does not accept (duplicate pending id; requests after a failed cancel) are counted, not judged", "bounded progress: 30 s"}
+	rec.Assume = []string{"a cancel acknowledged after the timer's due time overlaps its firing (the goroutine may already be blocked in the emitter): either outcome accepted", "a request the timers machine does not accept (duplicate pending id) must leave the pending set as it was", "bounded progress: 30 s"}
 	n := cfg.Pick(150, 5000)
 	fw.Parallel(6, n, func(w, i int) { scenario(cfg, rec, i) })
 	for i := 0; i < cfg.Pick(15, 150); i++ {
